@@ -59,6 +59,9 @@ PROPS.update({
                 invariants="FileAllOrError (MC_FileIO, GEN -> replay), F_Run(fault, AbsOff(limit, len)) = observed return (TV); FileInd: inductive invariant for any number of chunks (Apalache)"),
 })
 # scenarios whose programs / behaviours are generated by TLC from a machine of the specification (GEN -> replay -> TV)
+# scenarios that need no renderer: also driven against the crate compiled without its `svg` / `image` features
+BARE_SCENS = {"cells", "lengths", "structured", "nearblocks", "formats", "thresholds", "giant", "maskgroups", "candgroups", "modes", "total", "corrupt", "discovered",
+              "text", "aftermath", "walk", "histories"}
 NO_TWIN = {"birthday"}        # a sweep that only selects inputs (25 CPU-minutes in the thorough tier): driven against one build configuration
 # scenario -> (fuzz target, seconds per tier)
 DISCOVER = {"discovered": ("qrbuild", {"quick": 25, "thorough": 300}), "candidates": ("qrbuild", {"quick": 25, "thorough": 300}), "svgdiscovered": ("svgimage", {"quick": 15, "thorough": 120})}
@@ -256,7 +259,9 @@ def run_property(pid, tier, seed, replay=None, spec=None):
     ran = []
     gen_counts = {}
     ship_stats = {"scenarios": 0, "identical": 0}
+    bare_stats = {"scenarios": 0, "identical": 0}
     ship_lines = []
+    bare_lines = []
     for scen_index, (kind, scen, required) in enumerate(spec["scen"]):
         if replay and hdr.get("scenario") and hdr["scenario"] != scen:
             continue
@@ -282,6 +287,8 @@ def run_property(pid, tier, seed, replay=None, spec=None):
             continue
         if replay and hdr.get("build") == "shipping":
             binary = runner.build_harness(runner.SHIP[used_kind])
+        if replay and hdr.get("build") == "bare":
+            binary = runner.build_harness("bare")
         scen_full, variant = scen, ""
         if ":" in scen:
             scen, variant = scen.split(":", 1)
@@ -345,23 +352,29 @@ def run_property(pid, tier, seed, replay=None, spec=None):
         ran.append(scen_full)
         # second build configuration: the same scenario driven against the crate compiled as users ship it (no debug assertions,
         # no overflow checks).  Identical trace -> identical verdict, nothing more to judge; a different trace is judged as well.
+        twins = []
         if not replay and scen not in NO_TWIN:
+            twins.append(("shipping", runner.SHIP[used_kind]))
+            if used_kind == "core" and scen in BARE_SCENS:
+                twins.append(("bare", "bare"))
+        for tname, tkind in twins:
             try:
-                ship = runner.build_harness(runner.SHIP[used_kind])
+                ship = runner.build_harness(tkind)
             except ToolError as e:
                 ship = None
-                notes.append(f"shipping flavour does not build: {str(e)[:200]}")
+                notes.append(f"{tname} flavour does not build: {str(e)[:200]}")
             if ship:
-                evs = evp[:-len(".ndjson")] + ".shipping.ndjson"
+                evs = evp[:-len(".ndjson")] + f".{tname}.ndjson"
                 runner.drive(ship, scen, seed, tier, evs, extra=extra)
                 same = open(evs, "rb").read() == open(evp, "rb").read()
-                ship_stats["scenarios"] += 1
-                ship_stats["identical"] += 1 if same else 0
+                st = ship_stats if tname == "shipping" else bare_stats
+                st["scenarios"] += 1
+                st["identical"] += 1 if same else 0
                 if not same:
-                    r2 = runner.validate_trace(evs, os.path.join(wd, "tv_ship_" + scen + variant))
+                    r2 = runner.validate_trace(evs, os.path.join(wd, f"tv_{tname}_" + scen + variant))
                     tv_total["events"] += r2["events"]
-                    tv_total["diags"] += [dict(d, scenario=scen_full, build="shipping") for d in r2["diags"]]
-                    ship_lines += [l for l in open(evs).read().split("\n") if l.strip()]
+                    tv_total["diags"] += [dict(d, scenario=scen_full, build=tname) for d in r2["diags"]]
+                    (ship_lines if tname == "shipping" else bare_lines).extend(l for l in open(evs).read().split("\n") if l.strip())
                 os.remove(evs)
     # 3. verdict: only diagnostics of this property; known findings subtracted
     own = [d for d in tv_total["diags"] if d["property"] == pid or (pid == "G01" and d["property"].startswith("G"))]
@@ -408,6 +421,7 @@ def run_property(pid, tier, seed, replay=None, spec=None):
         "other_property_diagnostics": others,
         "spec_invariants": spec.get("invariants", ""),
         "scenarios": ran,
+        "bare_build": dict(bare_stats, note="scenarios that need no renderer are driven a third time against the crate compiled WITHOUT its svg / image features; identical trace shares the verdict, a different one is judged too"),
         "shipping_build": dict(ship_stats, note="every scenario is driven a second time against the crate compiled without debug assertions and overflow checks (same harness flavour, shipping profile); a byte-identical trace shares the verdict, a different one is judged too"),
         "notes": notes + [json.dumps(x)[:400] for x in tv_total["notes"][:3]],
         "exhaustive": False,
@@ -419,8 +433,8 @@ def run_property(pid, tier, seed, replay=None, spec=None):
     nviol = 0
     if fresh:
         os.makedirs(os.path.join(ROOT, "replay"), exist_ok=True)
-        byid = {"": {}, "shipping": {}}
-        for b_, ls_ in (("", all_lines), ("shipping", ship_lines)):
+        byid = {"": {}, "shipping": {}, "bare": {}}
+        for b_, ls_ in (("", all_lines), ("shipping", ship_lines), ("bare", bare_lines)):
             for l in ls_:
                 m = re.search(r'"id":(\d+)', l)
                 if m:
@@ -433,8 +447,10 @@ def run_property(pid, tier, seed, replay=None, spec=None):
             ids = sorted({d["id"] for d in ds})[:20]
             evs = [l for i in ids for l in byid[build].get(i, []) if f'"tag":"{[d for d in ds if d["id"] == i][0].get("tag","")}"' in l]
             grps = sorted({json.loads(l).get("grp", 0) for l in evs} - {0})
-            if build:
+            if build == "shipping":
                 why += " [crate compiled without debug assertions and overflow checks; the default test profile does not show it]"
+            if build == "bare":
+                why += " [crate compiled without its svg / image features]"
             with open(path, "w") as f:
                 f.write(json.dumps({"property": pid, "why": why, "scenario": scen, "build": build, "seed": seed, "tier": tier, "ids": ids, "grps": grps, "count": len(ds),
                                     "replay": f"./check {pid} --replay {path}"}) + "\n")
